@@ -461,6 +461,9 @@ package sql
 //@ func (ts *tokenScanner) Cur() Token
 //@   props C08 C09 C10
 //@   modifies fields(ts)
+//@   ensures[class.delim; C10] old(ts.cur) == DelimIdent ==> result.Type == IDENT
+//@   ensures[class.int; C10] old(ts.cur) == Int ==> result.Type == INT
+//@   ensures[class.eof; C10] old(ts.cur) == EOF ==> result.Type == EOF
 
 //@ func stripQuotes(text string) string
 //@   props C08 C09 C10
